@@ -3,6 +3,9 @@ package props
 import (
 	"encoding/json"
 	"fmt"
+	"io/fs"
+	"os"
+	"path/filepath"
 	"regexp"
 	"sort"
 	"strings"
@@ -54,9 +57,20 @@ var reCollection = regexp.MustCompile(`^([a-z]|X[0-9]+)s$`)
 func C07(e *core.Env) {
 	res := e.Res
 	res.Rule = "cases = well-formed declarative profiles that must compile: (a) N nested constraints side by side in one validation, N in 1..40 crossing the 25-letter boundary (quick: 14 values, thorough: all), (b) nesting depth 1..7, (c) 1..30 validations over the three levels, (d) every documented constraint kind x path shape (single, sequence, alternative, inverse, alternative inside a sequence inside an alternative, @type), (e) several constraints of one kind in one rule body (or / if / not-and), with messages of 0..3 placeholders, (f) seeded random formulas; " +
-		"for (a) and (b) the quantified variables and collections found in the real module (parsed with the engine's parser) must be exactly the model's var_name / plural; (i) the string literal written for 12 patterns and the set literal written for 6 value lists, text against text with the Coq model; (h) 28 legal but degenerate / unusual arguments (empty lists, zero counts, patterns with a backtick / quote / backslash class / newline, path keys over several lines or with tabs, zero / negative / float bounds, quantifier counts 0 and 10^6) plain and under not; (j) 8 level listings (a validation under two / three levels, twice under one level, a level listing only validations another level lists too); (k) histories: two well-formed profiles compiled three times after each of 6 refused profiles (undeclared prefix in a path / class / placeholder, broken Rego, a non-path, no YAML); (m) the text of whole rules (one-branch validations: a count / length / pattern / datatype / numeric-bound / `in` / containsAll / containsSome / property-pair constraint plain or under `not`, an `or` of two, a conjunction of two (one rule per member) plain and under `not`, over three path shapes, three levels, names with quotes and percent signs, messages with 0-2 placeholders), every line against RuleGen.rule_lines; (l) the text of the path rules (values and nodes mode) of every path with <= 2 leaves and a sample with 3, over regular and custom (api-extension) properties, line by line against PathGen.path_rule_lines; (g) 24 texts (each control / format / astral / quoting character on its own) x {profile name, validation name, message, list value}; non-trivial = every case; distinct by profile text"
+		"for (a) and (b) the quantified variables and collections found in the real module (parsed with the engine's parser) must be exactly the model's var_name / plural; (i) the string literal written for 12 patterns and the set literal written for 6 value lists, text against text with the Coq model; (h) 28 legal but degenerate / unusual arguments (empty lists, zero counts, patterns with a backtick / quote / backslash class / newline, path keys over several lines or with tabs, zero / negative / float bounds, quantifier counts 0 and 10^6) plain and under not; (j) 8 level listings (a validation under two / three levels, twice under one level, a level listing only validations another level lists too); (k) histories: two well-formed profiles compiled three times after each of 6 refused profiles (undeclared prefix in a path / class / placeholder, broken Rego, a non-path, no YAML); (m) the text of whole rules (one-branch validations: a count / length / pattern / datatype / numeric-bound / `in` / containsAll / containsSome / property-pair constraint plain or under `not`, an `or` of two, a conjunction of two (one rule per member) plain and under `not`, over three path shapes, three levels, names with quotes and percent signs, messages with 0-2 placeholders), every line against RuleGen.rule_lines; (l) the text of the path rules (values and nodes mode) of every path with <= 2 leaves and a sample with 3, over regular and custom (api-extension) properties, line by line against PathGen.path_rule_lines; (g) 24 texts (each control / format / astral / quoting character on its own) x {profile name, validation name, message, list value}; (n) THE WHOLE MODULE: for every profile above, and for the profile files of the repository's test data, the text generator.Generate writes (name counter reset) against Elab.compile / Compile.module_text, byte for byte; sequences of two and three profiles generated without resetting the counter; non-trivial = every case; distinct by profile text"
+	// every profile compiled below is also generated once more and its module compared, byte for byte, with the text the
+	// Coq model of the whole generator (Elab.compile) computes from the YAML tree
+	tc := newTextChecker(e, res)
+	defer func() {
+		res.Note(tc.summary())
+		res.Distribution["whole-module-text=equal"] = tc.Compared - tc.mismatches
+		res.Distribution["whole-module-text=outside-the-model"] = tc.Unsupported
+	}()
 	compile := func(label, profile string, known func(err error) bool) bool {
 		_, err := pkg.CompileProfile(profile, false, nil)
+		if tc.check(label, profile) {
+			res.Case("module-text|"+label+"|"+profile, true)
+		}
 		if err == nil {
 			return true
 		}
@@ -680,6 +694,36 @@ func C07(e *core.Env) {
 			n++
 			res.Case("rule-text|"+c.label+"|"+level+"|"+m.text, true)
 			res.Count("family=rule-text")
+		}
+	}
+	// (n) the whole module for the profile files of the repository's test data, alone and in sequences that share the name counter
+	{
+		files := []string{}
+		filepath.WalkDir(filepath.Join(e.Repo, "test", "data"), func(p string, d fs.DirEntry, err error) error {
+			if err == nil && !d.IsDir() && strings.HasPrefix(filepath.Base(p), "profile") && strings.HasSuffix(p, ".yaml") {
+				files = append(files, p)
+			}
+			return nil
+		})
+		sort.Strings(files)
+		texts := []string{}
+		for _, f := range files {
+			data, err := os.ReadFile(f)
+			if err != nil {
+				continue
+			}
+			rel, _ := filepath.Rel(e.Repo, f)
+			if tc.check("repository profile "+rel, string(data)) {
+				texts = append(texts, string(data))
+				res.Case("module-text|file|"+rel, true)
+				res.Count("family=module-text-of-repository-profiles")
+			}
+		}
+		for i := 0; i+2 < len(texts); i += e.Pick(9, 3) {
+			if tc.checkSeq(fmt.Sprintf("repository profiles %d..%d in sequence", i, i+2), texts[i:i+3]) {
+				res.Case(fmt.Sprintf("module-text|sequence|%d", i), true)
+				res.Count("family=module-text-sequences")
+			}
 		}
 	}
 	// the model's declaration list, for the record
